@@ -127,6 +127,28 @@ def _config_roles(fn):
 
 
 def _matched_var(fn, pv, gm, TREE, U):
+    """the local holding exactly the keys of the tree the rule's regexp matches; None when there is none, or when the local has a second definition of another kind
+    (a shortcut arm that decides the matching lines without the pattern)"""
+    name = _matched_var0(fn, pv, gm, TREE, U)
+    if name is None:
+        return None
+    defs = [n for n in walk_no_nested(fn) if isinstance(n, (ast.Assign, ast.AnnAssign)) and any(isinstance(t, ast.Name) and t.id == name
+            for t in (n.targets if isinstance(n, ast.Assign) else [n.target]))]
+    kinds = set()
+    for d in defs:
+        v = d.value
+        if isinstance(v, (ast.ListComp, ast.SetComp)):
+            kinds.add("comp")
+        elif isinstance(v, ast.List) and not v.elts:
+            kinds.add("empty")
+        else:
+            kinds.add("other")
+    if "other" in kinds or kinds == {"comp", "empty"} and len([d for d in defs if isinstance(d.value, (ast.ListComp, ast.SetComp))]) > 1:
+        return None
+    return name if len([d for d in defs if isinstance(d.value, (ast.ListComp, ast.SetComp))]) <= 1 and len([d for d in defs if isinstance(d.value, ast.List)]) <= 1 else None
+
+
+def _matched_var0(fn, pv, gm, TREE, U):
     """the local holding exactly the keys of the tree that the rule's regexp matches (comprehension or append loop)"""
     def is_keys(e):
         return norm(e) in (TREE, f"{TREE}.keys()", f"list({TREE})", f"list({TREE}.keys())")
